@@ -709,6 +709,19 @@ fn compile_text_k(_case: &Value, inputs: &Value) -> Value {
         };
         return json!({"compiled": compiled, "symbols": symv, "fn_entry": true, "fn_args_ok": args_ok, "fn_result": result, "fn_matches_expect": matches});
     }
+    if let Some(n) = inputs.get("repeat").and_then(|v| v.as_u64()) {
+        // C05: rebuild the same text n times in this process (fresh hash keys per map, advancing name counter)
+        let mut differs = false;
+        let first_syms = json!(symv);
+        for _ in 0..n {
+            let mut b = inputs.clone();
+            b.as_object_mut().unwrap().remove("repeat");
+            b.as_object_mut().unwrap().remove("args");
+            let r = compile_text_k(_case, &b);
+            if r.get("compiled") != Some(&compiled) || r.get("symbols") != Some(&first_syms) { differs = true; }
+        }
+        return json!({"compiled": compiled, "symbols": symv, "repeat_differs": differs});
+    }
     if inputs.get("args").is_none() || inputs["args"].is_null() {
         return json!({"compiled": compiled, "symbols": symv});
     }
